@@ -3,6 +3,7 @@ import Qentem.Model.HashTable
 import Qentem.Model.HashTableSpec
 import Qentem.Proofs.HashTableSentences
 import Qentem.Proofs.HashTableSortBridge
+import Qentem.Proofs.HashTree
 /-!
 C13 — the hash array is an insertion-ordered map under every operation sequence.
 
@@ -212,5 +213,90 @@ example : (exKeyOps.foldl histStep (fun _ => none) [1], exKeyOps.foldl histStep 
     exKeyOps.foldl histStep (fun _ => none) [5], exKeyOps.foldl histStep (fun _ => none) [2]) =
     (some 7, some 9, some 0, none) := by decide
 example : exKeyOps.foldl alStep [] = [([1], 7), ([5], 0), ([3], 9)] := by decide
+
+/-! ### Nested values: a table whose values hold tables (`Model/HashTree.lean`)
+
+The C13 clause "copy and move ... lookup returns the last value stored" for the value type that
+contains an `HArray` itself, with source and destination anywhere in the same tree (self, siblings,
+ancestor <- descendant, descendant <- ancestor).  These are theorems about the value model the real
+tree is compared with after every operation (`checks/_hashtree.py`). -/
+section Tree
+open Qentem.HashTree
+
+/-- Copy assignment `node(dst).kids = node(src).kids` for ANY two existing paths: afterwards the
+destination holds exactly the source's former entries (keys, values, order) and keeps its own tag. -/
+theorem tree_copy_dst_eq_src (root : Node) (d s : List (List Nat)) (dn sn : Node)
+    (hd : getAt root d = some dn) (hs : getAt root s = some sn) :
+    ∃ root', (TreeOp.copy d s).step root = some root' ∧ getAt root' d = some ⟨dn.tag, sn.kids⟩ := by
+  refine ⟨setKidsAt root d sn.kids, by simp [TreeOp.step, hd, hs], ?_⟩
+  rw [setKidsAt_eq _ hd]
+  exact getAt_setAt_self d root _ hd
+
+/-- ... and every path that neither contains the destination nor lies under it reads as before. -/
+theorem tree_copy_unrelated_unchanged (root : Node) (d s q : List (List Nat)) (dn sn : Node)
+    (hd : getAt root d = some dn) (hs : getAt root s = some sn) (h1 : ¬ d <+: q) (h2 : ¬ q <+: d) :
+    ∃ root', (TreeOp.copy d s).step root = some root' ∧ getAt root' q = getAt root q := by
+  refine ⟨setKidsAt root d sn.kids, by simp [TreeOp.step, hd, hs], ?_⟩
+  rw [setKidsAt_eq _ hd]
+  exact getAt_setAt_incomparable d q root _ h1 h2
+
+/-- Whole-node assignment `node(dst) = node(src)`: the destination equals the source's former value. -/
+theorem tree_assign_dst_eq_src (root : Node) (d s : List (List Nat)) (dn sn : Node)
+    (hd : getAt root d = some dn) (hs : getAt root s = some sn) :
+    ∃ root', (TreeOp.assign d s).step root = some root' ∧ getAt root' d = some sn ∧
+      ∀ q, ¬ d <+: q → ¬ q <+: d → getAt root' q = getAt root q := by
+  refine ⟨setAt root d sn, by simp [TreeOp.step, hd, hs], getAt_setAt_self d root _ hd, ?_⟩
+  intro q h1 h2
+  exact getAt_setAt_incomparable d q root _ h1 h2
+
+/-- Move assignment between unrelated or descendant -> ancestor tables: the destination holds the
+source's former entries; when the source does not lie inside the destination it is left empty. -/
+theorem tree_move_dst_eq_src (root : Node) (d s : List (List Nat)) (dn sn : Node)
+    (hd : getAt root d = some dn) (hs : getAt root s = some sn) (hne : d ≠ s) (h1 : ¬ s <+: d) :
+    ∃ root', (TreeOp.move d s).step root = some root' ∧ ∃ dn', getAt root' d = some ⟨dn', sn.kids⟩ := by
+  refine ⟨setKidsAt (setKidsAt root s []) d sn.kids, by simp [TreeOp.step, hd, hs, hne], ?_⟩
+  -- the destination still exists after the source was emptied: it is not under the source
+  have hd' : ∃ m, getAt (setKidsAt root s []) d = some m := by
+    rw [setKidsAt_eq _ hs]
+    by_cases h2 : d <+: s
+    · -- the destination is a proper ancestor of the source: the write happens below it
+      obtain ⟨t, rfl⟩ := h2
+      clear hne h1
+      induction d generalizing root dn with
+      | nil => exact ⟨_, rfl⟩
+      | cons k p ih =>
+        simp only [getAt] at hd
+        cases hl : lookupKid root.kids k with
+        | none => rw [hl] at hd; cases hd
+        | some c =>
+          rw [hl] at hd
+          have hs' : getAt c (p ++ t) = some sn := by
+            simpa [getAt, hl] using hs
+          simp only [List.cons_append, setAt, hl, getAt, lookupKid_setKid_self _ hl]
+          exact ih c dn hd hs'
+    · rw [getAt_setAt_incomparable s d root _ h1 h2]; exact ⟨dn, hd⟩
+  obtain ⟨m, hm⟩ := hd'
+  rw [setKidsAt_eq _ hm]
+  exact ⟨m.tag, getAt_setAt_self d _ _ hm⟩
+
+/-- Get-or-create: the key is stored afterwards; an existing entry keeps its value, a new one is the
+default value. -/
+theorem tree_get_stored (root : Node) (p : List (List Nat)) (k : List Nat) (n : Node)
+    (hp : getAt root p = some n) :
+    ∃ root', (TreeOp.get p k).step root = some root' ∧ ∃ pn, getAt root' p = some pn ∧
+      lookupKid pn.kids k = some ((lookupKid n.kids k).getD Node.fresh) := by
+  cases hl : lookupKid n.kids k with
+  | some c =>
+    exact ⟨root, by simp [TreeOp.step, hp, hl], n, hp, by simp [hl]⟩
+  | none =>
+    refine ⟨setKidsAt root p (n.kids ++ [(k, Node.fresh)]), by simp [TreeOp.step, hp, hl],
+      ⟨n.tag, n.kids ++ [(k, Node.fresh)]⟩, ?_, ?_⟩
+    · rw [setKidsAt_eq _ hp]; exact getAt_setAt_self p root _ hp
+    · simp only [Option.getD_none]
+      have hnone : List.find? (fun e => e.1 == k) n.kids = none := by
+        simpa [lookupKid] using hl
+      simp [lookupKid, List.find?_append, hnone]
+
+end Tree
 
 end Qentem.Props.C13
